@@ -280,8 +280,8 @@ def judge_case(c: vlib.Check, case: Dict[str, Any], per_child: List[Dict[str, An
 
 def plan(tier: str):
     if tier == "thorough":
-        return {"packages": 320, "children": 16, "batch": 20}
-    return {"packages": 32, "children": 8, "batch": 8}
+        return {"packages": 240, "children": 16, "batch": 20}
+    return {"packages": 24, "children": 8, "batch": 8}
 
 
 def hashseeds_for(batch: int, k: int, fixed: Optional[List[int]] = None) -> List[int]:
